@@ -10,17 +10,26 @@ use fir::{
     PixelTrait, PixelType, ResizeAlg, ResizeOptions, Resizer,
 };
 use serde_json::Value;
-use std::cell::Cell;
+use std::sync::atomic::{AtomicU64, Ordering};
 
-thread_local! {
-    pub static FPARAM: Cell<f64> = const { Cell::new(0.0) };
+/// Parameter of the custom kernels (plain `fn` pointers cannot capture). Process-global, so that
+/// the rayon worker that runs the resize sees the value the case asked for.
+pub struct FParam(AtomicU64);
+impl FParam {
+    pub fn get(&self) -> f64 {
+        f64::from_bits(self.0.load(Ordering::SeqCst))
+    }
+    pub fn set(&self, v: f64) {
+        self.0.store(v.to_bits(), Ordering::SeqCst)
+    }
 }
+pub static FPARAM: FParam = FParam(AtomicU64::new(0));
 
 // ---- custom kernels (plain fn pointers; parameter through a thread local) ----
 
 fn k_lobes(x: f64) -> f64 {
     // (1 + 2a) on the centre tap, -a on the two neighbours: sum 1, sum |w| = 1 + 4a
-    let a = FPARAM.with(|p| p.get());
+    let a = FPARAM.get();
     let x = x.abs();
     if x < 0.5 {
         1.0 + 2.0 * a
@@ -50,7 +59,7 @@ fn k_lanczos4(x: f64) -> f64 {
 
 fn k_tent_wide(x: f64) -> f64 {
     // non-negative tent of parametrised half width (support given separately)
-    let a = FPARAM.with(|p| p.get()).max(0.25);
+    let a = FPARAM.get().max(0.25);
     let x = x.abs();
     if x < a {
         1.0 - x / a
@@ -132,9 +141,7 @@ pub fn parse_options(o: &Value) -> ResizeOptions {
     let mut opt = ResizeOptions::new();
     let filter = o.get("filter").and_then(|f| f.as_str()).unwrap_or("Lanczos3");
     let support = o.get("support").map(parse_f64).unwrap_or(1.5);
-    if let Some(p) = o.get("fparam") {
-        FPARAM.with(|c| c.set(parse_f64(p)));
-    }
+    FPARAM.set(o.get("fparam").map(parse_f64).unwrap_or(0.0));
     let ft = parse_filter(filter, support);
     let alg = match o.get("alg").and_then(|a| a.as_str()).unwrap_or("conv") {
         "nearest" => ResizeAlg::Nearest,
